@@ -63,7 +63,14 @@ func vCorpusC14() [][]vSess {
 	v6.Advs = []vAdv{{Prefix: "172.16.1.10/32", Comms: []string{}}, {Prefix: "2001:db8::1/128", LP: 100, Comms: []string{"0:7"}}}
 	none := base
 	none.PeerAddr = "192.168.1.1"
-	return [][]vSess{{f15}, {rep}, {v6, none}, {rep, none}}
+	// two unnumbered uplinks that differ only in the interface
+	up1 := base
+	up1.PeerAddr, up1.Iface, up1.DynASN, up1.PeerASN, up1.Src = "", "net0", "external", 0, "10.1.1.254"
+	up1.Advs = []vAdv{{Prefix: "172.16.1.10/32", Comms: []string{}}, {Prefix: "2001:db8::1/128", Comms: []string{"65000:100"}}}
+	up2 := up1
+	up2.Iface = "eth1"
+	up2.Advs = []vAdv{{Prefix: "172.16.1.11/32", LP: 100, Comms: []string{}}}
+	return [][]vSess{{f15}, {rep}, {v6, none}, {rep, none}, {up1, up2}}
 }
 
 func TestVerifFrr(t *testing.T) {
@@ -107,6 +114,11 @@ func TestVerifFrr(t *testing.T) {
 			vrfs[s.VRF] = true
 			if s.Iface != "" {
 				out.Stat("unnumbered", 1)
+				for _, o := range ss {
+					if o.Iface != "" && o.Iface != s.Iface && o.VRF == s.VRF && o.PeerASN == s.PeerASN && o.DynASN == s.DynASN && o.Src == s.Src {
+						out.Stat("unnumbered_differing_only_in_interface", 1)
+					}
+				}
 				if s.DisableMP {
 					out.Stat("unnumbered_disable_mp(F15 shape)", 1)
 				}
@@ -174,6 +186,14 @@ func vCorpusHist() []vHist {
 		// refused (two local preferences for p): the three entries above stay in force
 		{Kind: "setbad", Sess: 0, Why: "same prefix with another local preference", Advs: []vAdv{{Prefix: q, Comms: []string{}}, {Prefix: p, LP: 100, Comms: []string{}}, {Prefix: p, LP: 300, Comms: []string{}}}},
 		{Kind: "resync", Sess: 0},
+	}}, {Base: []vSess{base}, Ops: []vHistOp{
+		// the community-to-prefix assignment changes, nothing else (same prefixes, same union of communities)
+		{Kind: "new", Sess: 0},
+		{Kind: "set", Sess: 0, Advs: []vAdv{{Prefix: p, Comms: []string{"65000:100"}}, {Prefix: q, Comms: []string{"65000:100"}}}},
+		{Kind: "set", Sess: 0, Advs: []vAdv{{Prefix: p, Comms: []string{"65000:100"}}, {Prefix: q, Comms: []string{}}}},
+		{Kind: "set", Sess: 0, Advs: []vAdv{{Prefix: p, Comms: []string{}}, {Prefix: q, Comms: []string{"65000:100"}}}},
+		{Kind: "set", Sess: 0, Advs: []vAdv{{Prefix: p, Comms: []string{"65000:100", "large:64512:1:2"}}, {Prefix: q, Comms: []string{"65000:100"}}}},
+		{Kind: "set", Sess: 0, Advs: []vAdv{{Prefix: p, Comms: []string{"65000:100"}}, {Prefix: q, Comms: []string{"65000:100", "large:64512:1:2"}}}},
 	}}}
 }
 
@@ -328,7 +348,7 @@ func TestVerifFrrHist(t *testing.T) {
 	debounceTimeout = time.Millisecond
 	failureTimeout = 5 * time.Millisecond
 	reloadConfig = func() error { return nil }
-	ne := 4
+	ne := 6
 	if vThorough() {
 		ne = 25
 	}
